@@ -8,9 +8,13 @@
    feasible ones, uniformly per sibling pair (fresh trees, results of earlier runs, compositions of those).
 
    The sentence "for a distilled network the number of terminals lies between the number of full-dimensional and
-   the number of non-empty closed activation regions" is NOT proved in general (C06_counting: per instance only,
-   by certified enumeration in the runner); what is proved is its ingredient: every remaining terminal has a
-   non-empty closed region (C06_effective, through eff). *)
+   the number of non-empty closed activation regions" is proved at the end of this file (Pwl/ElimCount.v,
+   ElimCountRoot.v): the terminals that survive are a sub-sequence of the input's terminals, given by a mask; a
+   kept terminal has a region (taken in the INPUT tree = its activation region) that is non-empty within tol, a
+   terminal with a non-empty region is kept (C06_count_mask), hence #full-dimensional <= #terminals <= #non-empty
+   closed for any admissible classification (C06_count_between), with equality to #non-empty at tol = 0
+   (C06_count_exact_tol0); the same for every pipeline input (C06_count_*_pipeline).  The runner still decides the
+   sentence per instance on the implementation's output by certified enumeration (tag region-count). *)
 From AT Require Import Num Vec Aff PTree Cells Abs Cache Elim ElimEval ElimCache ElimEff ElimExample.
 
 (* eff tol q r: node r below the root has a determined feasible state, a non-empty closed path polytope q, and -- if it
